@@ -224,6 +224,10 @@ func (s *scn) applyRuleOp(st CStep) {
 	if rc.Status != pb.Receipt_SUCCESS || json.Unmarshal(rc.Ret, g) != nil || g.ProposalID == "" {
 		return
 	}
+	if s.ruleProposalChain == nil {
+		s.ruleProposalChain = map[string]string{}
+	}
+	s.ruleProposalChain[g.ProposalID] = c.id // the proposal governs a rule; its conclusion cascades to the owning appchain
 	v := "approve"
 	if st.V == "reject" {
 		v = "reject"
